@@ -9,6 +9,8 @@ import SdcModel.Proofs.ScalarsDur
 import SdcModel.Proofs.ScalarsDurFp
 import SdcModel.Proofs.ScalarsDurLex
 import SdcModel.Proofs.ScalarsEnum
+import SdcModel.ScalarsDt
+import SdcModel.Proofs.ScalarsDt
 import SdcModel.Generated.ScalarsEnums
 /-!
 # C18 — scalar XML value conversions are exact over the wire value space
@@ -124,6 +126,32 @@ theorem duration_string_of_float (x : Fp) (us : Nat) (hx : x.m ≠ 0) (h : timed
 example : (86399999999999999999 : Nat) / usPerDay ≤ maxDays := by decide
 example : durationStringUs 3723000001 = [80, 84, 49, 72, 50, 77, 51, 46, 48, 48, 48, 48, 48, 49, 83] := by decide
 example : parseDurationUs [80, 84, 49, 72, 50, 77, 51, 46, 48, 48, 48, 48, 48, 49, 83] = .ok 3723000001 := by decide
+
+/-! ### date / time (xsd:gYear, gYearMonth, date, dateTime) -/
+
+/-- `parse_date_time(str(info)) == info` for every well-formed `XsdDateInformation` (month 1..12, day 1..31 only with a
+    month, time only with a day, hour ≤ 23, minute ≤ 59, seconds `SS[.f…]` below 60 as canonical decimal text, end-of-day
+    only without time, utc offset within ±14:00): the text is recognised with the same priorities as the backtracking
+    pattern (a negative offset directly behind the year / month is not taken for a month / day). The seconds stay
+    decimal text in the model: `float(text)` and `format(Decimal(repr(x)), 'f')` are the trusted boundary. -/
+theorem datetime_roundtrip (i : DateInfo) (hw : i.WF) : parseDateTime (dateTimeStr i) = .ok i :=
+  parseDateTime_dateTimeStr i hw
+
+example : (⟨-44, some 3, some 15, some (23, 59, 9, [53]), false, some (-300)⟩ : DateInfo).WF := by
+  refine ⟨?_, ?_, ?_, ?_, ⟨?_, ?_⟩, ?_⟩
+  · intro v h; injection h with h; omega
+  · intro h; cases h
+  · intro v h; injection h with h; omega
+  · intro h; cases h
+  · intro h; cases h
+  · intro hh mm ss fr h
+    injection h with h
+    simp only [Prod.mk.injEq] at h
+    obtain ⟨h1, h2, h3, h4⟩ := h
+    subst h1 h2 h3 h4
+    exact ⟨by omega, by omega, by omega, by intro c hc; simp at hc; subst hc; rfl, by decide⟩
+  · intro o h; injection h with h; omega
+example : dateTimeStr ⟨2020, none, none, none, false, some (-300)⟩ = [50, 48, 50, 48, 45, 48, 53, 58, 48, 48] := by decide
 
 /-! ### lexical spaces -/
 
